@@ -64,7 +64,34 @@ def cases(tier, seed):
                     # closed="left" with redshifts exactly on bin edges: the binning crosses the process
                     # boundary (pickled) and must mean the same on the other side
                     out.append(dict(entry=entry, npatch=npatch, W=W, focus=focus, closed="left", seed=seed))
+    # real pools, one process: every sequence of two measurements over binnings {A,B} x workers {1,2}; the second
+    # result must equal the same measurement made alone and sequentially (separate-process memory is not part of
+    # the virtual pool's model, so this part runs free on the real multiprocessing module)
+    for (b1, w1), (b2, w2) in itertools.product(itertools.product("AB", (1, 2)), repeat=2):
+        out.append(dict(entry="realpool-seq", scenario=[[b1, w1], [b2, w2]], seed=seed))
     return out
+
+
+def run_realpool_seq(case):
+    script = os.path.join(os.path.dirname(os.path.dirname(os.path.abspath(__file__))), "vlib", "realmp_conf.py")
+
+    def run(scenario):
+        p = subprocess.run([sys.executable, script, "c05seq", str(case["seed"]), json.dumps(scenario)],
+                           capture_output=True, text=True)
+        try:
+            return json.loads(p.stdout.strip().splitlines()[-1])["digest"]
+        except Exception:
+            return "FAILED " + (p.stderr.strip().splitlines() or ["?"])[-1][:200]
+
+    got = run(case["scenario"])
+    want = run([[case["scenario"][-1][0], 1]])
+    res = dict(nontrivial=case["scenario"][0] != case["scenario"][1], key=case, counters=dict(executions=2, states=2, transitions=2))
+    if got != want:
+        res.update(status="violation", violations=[dict(
+            signature="C05/realpool-seq/" + ("exception" if got.startswith("FAILED") else "result-differs"),
+            what=f"on the real multiprocessing pool the sequence {case['scenario']} (binning, workers) ends with a "
+                 f"result that differs from the last measurement made alone with one worker ({got[:80]})")])
+    return res
 
 
 def setup():
@@ -85,14 +112,20 @@ def make_caches(root, npatch, seed):
                   101, 103, 107, 109, 113, 127, 131, 137, 139, 149, 151, 157, 163, 167, 173, 179, 181, 191, 193])
 
     def o(k, off, z, row=0):
+        # weights are not dyadic: a sum taken in another order differs in the last bits
         return dict(ra=k * worlds.D + off + worlds.jitter(seed, f"{k}{off}{row}"), dec=0.4 * row, z=z,
-                    w=float(next(prime)), name=f"{k}/{off}")
+                    w=float(next(prime)) / 7.0 + 0.1, name=f"{k}/{off}")
 
     R, U, RR = [], [], []
     for k in range(npatch):
         # patch k: k+2 reference objects over the bins in a k-dependent pattern
         for t in range(k + 2):
             R.append(o(k, 0.5 * t - 0.4, mids[(k + t) % 5], t % 2))
+        # one more object in the first bin whose weight makes float addition visibly non-associative across
+        # patches: 2^53 in patch 0, 1.0 elsewhere ((2^53 + 1) + 1 != 2^53 + (1 + 1))
+        extra = o(k, 0.9, 0.12, 1)
+        extra["w"] = float(2**53) if k == 0 else 1.0
+        R.append(extra)
         for t in range(2 + (k % 2)):
             U.append(o(k, 0.35 * t + 0.2 + 2.7 * (t == 2), None))
         for t in range(3):
@@ -224,6 +257,8 @@ def distinct_contents(cats):
 
 
 def run_case(case):
+    if case["entry"] == "realpool-seq":
+        return run_realpool_seq(case)
     import time as _t
     t0 = _t.time()
     entry, npatch, W = case["entry"], case["npatch"], case["W"]
